@@ -414,6 +414,11 @@ func (d *lockDomain) collectAccesses(fn *ssa.Function) []lsAccess {
 				if tn == "tcell.Tty" && cc.Method.Name() == "Write" {
 					out = append(out, lsAccess{"tty-out", true, ins})
 				}
+				// handing the terminal over and taking it back: Start and Stop of the Tty are not
+				// safe against each other (nor against writes), so they run under the screen's mutex
+				if tn == "tcell.Tty" && (cc.Method.Name() == "Start" || cc.Method.Name() == "Stop") {
+					out = append(out, lsAccess{"tty-life", true, ins})
+				}
 			}
 			return
 		}
